@@ -11,7 +11,10 @@ Faults == {"eof", "reset", "partial", "close", "closeErr", "end", "endErr", "det
            \* ..A: the peer's error condition lies in the reserved amqp: namespace but is not one this build knows (a newer or vendor-extended peer)
            "closeErrA", "endErrA", "detachSErrA",   \* ..nc: detach without closing
            \* the peer refuses the sending link whose attach is pending: it answers with an attach that has no target and closes it with an error
-           "refuseS"}
+           "refuseS",
+           \* the peer ends the session with an error and, in the same write, closes the connection / cuts the transport: the calls on that
+           \* session's links still learn that the session was ended, and why
+           "endErrClose", "endErrEof"}
 \* cut: number of completed steps before the failure; pend: what is pending when it strikes
 Cuts == 0..6
 Pends == {"step", "none", "send", "recv", "close", "end", "detach", "burst1", "burst2", "burst3", "burst5"}   \* close / end / detach: the local teardown call crosses the failure on the wire
@@ -19,7 +22,8 @@ Bursts == {"burst1", "burst2", "burst3", "burst5"}
 VARIABLE z
 Init == z = [k |-> "start"]
 Applicable(c, f, p) ==
-  /\ (f \in {"end", "endErr", "endErrA"} => c >= 2) /\ (f \in {"detachS", "detachSErr", "detachSnc", "detachSErrA"} => c >= 3)
+  /\ (f \in {"end", "endErr", "endErrA", "endErrClose", "endErrEof"} => c >= 2)
+  /\ (f \in {"endErrClose", "endErrEof"} => p \in {"none", "send", "recv"} /\ c \in {4, 6}) /\ (f \in {"detachS", "detachSErr", "detachSnc", "detachSErrA"} => c >= 3)
   /\ (f \in {"closeErrA", "endErrA", "detachSErrA"} => p \in {"none", "send", "recv"} /\ c \in {4, 6}) /\ (f \in {"detachR", "detachRnc"} => c >= 4)
   /\ (f = "refuseS" => c = 2 /\ p = "step" /\ Side = "client")
   /\ (p = "send" => c >= 3) /\ (p = "recv" => c >= 4) /\ (p = "step" => c <= 5)
@@ -71,6 +75,8 @@ Fault(f) == CASE f = "eof" -> <<[e |-> "PEof", keep_read |-> TRUE]>>
               [] f = "detachSErrA" -> <<PF("detach", 3, [h |-> 5, closed |-> TRUE, err |-> "amqp:link:maintenance"])>>
               [] f = "end" -> <<PF("end", 3, [err |-> ""])>>
               [] f = "endErr" -> <<PF("end", 3, [err |-> "x:ended"])>>
+              [] f = "endErrClose" -> <<[e |-> "PFrame", perf |-> "end", ch |-> 3, nosettle |-> TRUE, f |-> [err |-> "x:ended"]], PF("close", 0, [err |-> ""])>>
+              [] f = "endErrEof" -> <<[e |-> "PFrame", perf |-> "end", ch |-> 3, nosettle |-> TRUE, f |-> [err |-> "x:ended"]], [e |-> "PEof", keep_read |-> TRUE]>>
               [] f = "detachS" -> <<PF("detach", 3, [h |-> 5, closed |-> TRUE, err |-> ""])>>
               [] f = "detachSErr" -> <<PF("detach", 3, [h |-> 5, closed |-> TRUE, err |-> "x:gone"])>>
               [] f = "refuseS" -> <<[e |-> "PFrame", perf |-> "attach", ch |-> 3, nosettle |-> TRUE, f |-> [name |-> "L1", h |-> 5, role |-> "r", snd |-> 2, rcv |-> 0, tgt |-> FALSE]],
